@@ -262,6 +262,134 @@ func (e *c11env) run(initial ref.Row, ops []ref.Op, nilEmpty bool) []finding {
 	return fs
 }
 
+// c11step is one operation of a transaction: the same operation applied to several rows
+// ends up in ONE ModelUpdates (as Transaction.Update / Mutate / Delete build it), which is
+// then merged into the accumulated one.
+type c11step struct {
+	op    ref.Op // Where is filled in per row
+	uuids []string
+}
+
+// runMulti accumulates multi-row steps and judges every row against the reference.
+func (e *c11env) runMulti(initial map[string]ref.Row, steps []c11step) []finding {
+	var fs []finding
+	pre := ref.NewDB(e.m.S)
+	for u, row := range initial {
+		pre.T["T"][u] = row
+	}
+	var flat []ref.Op
+	type at struct{ step, idx int }
+	var where []at
+	for si, st := range steps {
+		for _, u := range st.uuids {
+			op := st.op
+			if op.Kind == "insert" {
+				op.UUID = u
+			} else {
+				op.Where = byUUID(u)
+			}
+			flat = append(flat, op)
+			where = append(where, at{si, len(flat) - 1})
+		}
+	}
+	out := pre.Transact(cloneOps(flat))
+	if out.OutOfDom != "" || out.Failed() {
+		return nil
+	}
+	wire, err := e.m.WireOps(flat)
+	if err != nil {
+		return nil
+	}
+	cur := map[string]model.Model{}
+	for u, row := range initial {
+		cur[u] = e.m.NewModel("T", u, row)
+	}
+	kinds := "multi-row:" + opKindsOf(flat)
+	acc := updates.ModelUpdates{}
+	k := 0
+	for _, st := range steps {
+		u := updates.ModelUpdates{}
+		for _, id := range st.uuids {
+			op := wire[k]
+			k++
+			c := cur[id]
+			if (op.Op == "insert") != (c == nil) {
+				continue // where matches nothing / the reference would have failed
+			}
+			if err := u.AddOperation(e.m.DB, "T", id, c, &op); err != nil {
+				return []finding{{"C11/accumulate/error/" + kinds, fmt.Sprintf("AddOperation (%s on %s) failed: %v", op.Op, id, err)}}
+			}
+		}
+		_ = u.ForEachModelUpdate("T", func(id string, old, new model.Model) error {
+			if new == nil || isNilModel(new) {
+				delete(cur, id)
+			} else {
+				cur[id] = new
+			}
+			return nil
+		})
+		if err := acc.Merge(e.m.DB, u); err != nil {
+			return []finding{{"C11/accumulate/merge-error/" + kinds, fmt.Sprintf("Merge failed: %v", err)}}
+		}
+	}
+	rowOfModel := func(mm model.Model) ref.Row {
+		if mm == nil || isNilModel(mm) {
+			return nil
+		}
+		_, r, err := e.m.RowOf("T", mm)
+		if err != nil {
+			return ref.Row{"<error>": ref.Set(ref.Str(err.Error()))}
+		}
+		return r
+	}
+	eq := func(a, b ref.Row) bool {
+		if a == nil || b == nil {
+			return a == nil && b == nil
+		}
+		return a.Equal(b)
+	}
+	type pair struct{ o, n ref.Row }
+	got := map[string]pair{}
+	_ = acc.ForEachModelUpdate("T", func(id string, o, nw model.Model) error {
+		got[id] = pair{rowOfModel(o), rowOfModel(nw)}
+		return nil
+	})
+	ids := map[string]bool{}
+	for u := range initial {
+		ids[u] = true
+	}
+	for _, st := range steps {
+		for _, u := range st.uuids {
+			ids[u] = true
+		}
+	}
+	for id := range ids {
+		ini, fin := initial[id], out.Post.T["T"][id]
+		g, present := got[id]
+		switch {
+		case eq(ini, fin):
+			if present {
+				fs = append(fs, finding{"C11/multi-row/net-zero-survives/" + kinds, fmt.Sprintf("row %s ends as it began (or was inserted and deleted) but the accumulated update still holds it", id)})
+			}
+		case !present:
+			fs = append(fs, finding{"C11/multi-row/net-change-missing/" + kinds, fmt.Sprintf("row %s changed (%v -> %v) but the accumulated update does not hold it (rows held: %d)", id, ini, fin, len(got))})
+		default:
+			if !eq(g.o, ini) {
+				fs = append(fs, finding{"C11/multi-row/old-is-not-first-old/" + kinds, fmt.Sprintf("row %s: accumulated old is %v, first old was %v", id, g.o, ini)})
+			}
+			if !eq(g.n, fin) {
+				fs = append(fs, finding{"C11/multi-row/new-is-not-last-new/" + kinds, fmt.Sprintf("row %s: accumulated new is %v, last new is %v", id, g.n, fin)})
+			}
+		}
+	}
+	for id := range got {
+		if !ids[id] {
+			fs = append(fs, finding{"C11/multi-row/update-for-untouched-row/" + kinds, "row " + id + " was never touched"})
+		}
+	}
+	return fs
+}
+
 func isNilModel(m model.Model) bool {
 	defer func() { _ = recover() }()
 	return m == nil
@@ -457,5 +585,87 @@ func c11Child(r *ev.Run, batch int) {
 		r.Count("random_chains", 1)
 		r.Distinct("c|" + fmt.Sprint(initial) + fmt.Sprint(opsJSON(ops)))
 		do(initial, ops, fmt.Sprintf("chain initial=%v ops=%v", initial, opsJSON(ops)))
+	}
+	// multi-row transactions: 2-5 existing rows, 2-4 steps, each step one operation on a
+	// subset of the rows (and of the rows inserted before), merged step by step
+	multi := r.N(1200, 40000)
+	mp := prng.Derive(r.Seed, "C11multi", batch)
+	for i := 0; i < multi; i++ {
+		initial := map[string]ref.Row{}
+		var live []string
+		focus := mutable[mp.Intn(len(mutable))]
+		c := focus.col
+		pickVal := func() ref.Datum {
+			sm := focus.small()
+			return sm[mp.Intn(len(sm))].datum(c.IsMap())
+		}
+		for k := 2 + mp.Intn(4); k > 0; k-- {
+			u := mp.UUID()
+			row := defRow()
+			row["name"] = ref.Set(ref.Str("e" + u[:6]))
+			row[c.Name] = pickVal()
+			initial[u] = row
+			live = append(live, u)
+		}
+		sort.Strings(live)
+		subset := func() []string {
+			var l []string
+			for _, u := range live {
+				if mp.Chance(2, 3) {
+					l = append(l, u)
+				}
+			}
+			if len(l) == 0 && len(live) > 0 {
+				l = []string{live[mp.Intn(len(live))]}
+			}
+			return l
+		}
+		var steps []c11step
+		for k := 2 + mp.Intn(3); k > 0; k-- {
+			switch x := mp.Intn(10); {
+			case x < 3:
+				u := mp.UUID()
+				steps = append(steps, c11step{op: ref.Op{Kind: "insert", Table: "T", Row: ref.Row{"name": ref.Set(ref.Str("n" + u[:6])), c.Name: pickVal()}}, uuids: []string{u}})
+				live = append(live, u)
+				sort.Strings(live)
+			case x < 6:
+				us := subset()
+				steps = append(steps, c11step{op: ref.Op{Kind: "delete", Table: "T"}, uuids: us})
+				var rest []string
+				for _, u := range live {
+					if !contains(us, u) {
+						rest = append(rest, u)
+					}
+				}
+				live = rest
+			default:
+				if len(live) == 0 {
+					continue
+				}
+				steps = append(steps, c11step{op: ref.Op{Kind: "update", Table: "T", Row: ref.Row{c.Name: pickVal()}}, uuids: subset()})
+			}
+		}
+		if len(steps) < 2 {
+			continue
+		}
+		r.Eval(1)
+		r.Count("multi_row_transactions", 1)
+		desc := fmt.Sprintf("multi-row column=%s rows=%d steps=%d", c.Name, len(initial), len(steps))
+		var sk []string
+		for _, st := range steps {
+			sk = append(sk, fmt.Sprintf("%s*%d", st.op.Kind, len(st.uuids)))
+		}
+		r.Distinct("mr|" + c.Name + strings.Join(sk, ","))
+		r.LogCase("C11 " + desc + " " + strings.Join(sk, ","))
+		func() {
+			defer func() {
+				if pv := recover(); pv != nil {
+					r.Violation("C11/multi-row/panic/"+ev.PanicSignature(fmt.Sprint(pv), ""), fmt.Sprintf("panic: %v", pv), map[string]interface{}{"case": desc, "steps": sk})
+				}
+			}()
+			for _, f := range e.runMulti(initial, steps) {
+				r.Violation(f.Sig, f.What, map[string]interface{}{"case": desc, "steps": sk})
+			}
+		}()
 	}
 }
